@@ -111,6 +111,8 @@ class Fn:
         for a, d in zip(self.node.args.kwonlyargs, self.node.args.kw_defaults):
             if d is not None:
                 self.defaults[a.arg] = d
+        self.vararg = self.node.args.vararg.arg if self.node.args.vararg else None
+        self.kwarg = self.node.args.kwarg.arg if self.node.args.kwarg else None
         seg = ast.get_source_segment(self.src.text, self.node) or ""
         self.sha = hashlib.sha256(seg.encode()).hexdigest()[:16]
 
